@@ -125,7 +125,17 @@ func c10Gen(c *engine.C) engine.Case {
 		// method count around the largeClass threshold, with getters/setters mixed in
 		count := []int{1, 19, 20, 21}[c.Choose(4, "plain-methods")]
 		gs := []int{0, 2, 4}[c.Choose(3, "getters-mixed-in")]
+		// the last plain method may be an overload of the first one (same name, other parameter list): methods are
+		// counted, not names
+		lastOverloadsFirst := count > 1 && c.Bool("last-plain-method-overloads-the-first")
+		if lastOverloadsFirst {
+			c.Tag("overloaded-plain-method")
+		}
 		for i := 0; i < count; i++ {
+			if lastOverloadsFirst && i == count-1 {
+				add(&jg.Method{Mods: []string{"public"}, Ret: "void", Name: "work0", Params: []jg.Param{{Type: "int", Name: "extra"}}, Body: filler(1, "")}, &c10Meta{})
+				continue
+			}
 			add(&jg.Method{Mods: []string{"public"}, Ret: "void", Name: fmt.Sprintf("work%d", i), Body: filler(1, "")}, &c10Meta{})
 			if i == 0 && gs > 0 {
 				add(&jg.Method{Mods: []string{"public"}, Ret: "int", Name: "getN", Body: []jg.Stmt{jg.St(jg.T("return n;"))}}, &c10Meta{})
